@@ -221,10 +221,32 @@ Record step := mk_step {
   st_matched : bool    (* value of the Match guard (true when there is none) *)
 }.
 
-Definition cb_of_step (s : step) (hid : N) : cb :=
+(* callback.Replace since /repo e28c215: "a replacement keeps the place of the "*" callback it replaces":
+     for i := len(p.callbacks)-1; i >= 0 && c.before == "" && c.after == ""; i-- {
+       if o := p.callbacks[i]; o.name == name && !o.remove {
+         if o.before == "*" || o.after == "*" { c.before, c.after = o.before, o.after }; break } } *)
+Fixpoint last_live_named (cs : list cb) (n : string) : option cb :=
+  match cs with
+  | [] => None
+  | c :: r => match last_live_named r n with
+              | Some x => Some x
+              | None => if String.eqb (cb_name c) n && negb (cb_remove c) then Some c else None
+              end
+  end.
+Definition replace_fields (cs : list cb) (s : step) : string * string :=
+  if is_none (st_before s) && is_none (st_after s) then
+    match last_live_named cs (st_name s) with
+    | Some o => if is_star (cb_before o) || is_star (cb_after o) then (cb_before o, cb_after o)
+                else (st_before s, st_after s)
+    | None => (st_before s, st_after s)
+    end
+  else (st_before s, st_after s).
+
+(* [cs] = p.callbacks at the time of the call *)
+Definition cb_of_step (cs : list cb) (s : step) (hid : N) : cb :=
   match st_kind s with
   | KRegister => mk_cb (st_name s) (st_before s) (st_after s) false false (st_matched s) hid
-  | KReplace  => mk_cb (st_name s) (st_before s) (st_after s) false true (st_matched s) hid
+  | KReplace  => mk_cb (st_name s) (fst (replace_fields cs s)) (snd (replace_fields cs s)) false true (st_matched s) hid
   | KRemove   => mk_cb (st_name s) (st_before s) (st_after s) true false (st_matched s) hid
   end.
 
@@ -243,7 +265,7 @@ Definition cyclic_msg (n : string) : string :=
 Record proc := mk_proc { p_cs : list cb; p_fns : list (string * N) }.
 
 Definition run_step (p : proc) (s : step) (hid : N) : option proc * obs :=
-  match sort_callbacks (compile_filter (p_cs p ++ [cb_of_step s hid])) with
+  match sort_callbacks (compile_filter (p_cs p ++ [cb_of_step (p_cs p) s hid])) with
   | SOk cs fns => (Some (mk_proc cs fns), OOk fns)
   | SErr cs n t => (Some (mk_proc cs []), OErr (conflict_msg n t) [])
   | SCyc cs n => (Some (mk_proc cs []), OErr (cyclic_msg n) [])
